@@ -289,7 +289,7 @@ def htmlPart (c0 c1 : Byte) : Option (Option Nat) :=
 /-- the loop of `mpt_color_html`: parts still allowed, text, collected components, characters used -/
 def htmlLoop : Nat → Str → List Nat → Nat → Option (List Nat × Nat)
   | 0, _, acc, used => some (acc, used)
-  | _ + 1, [], acc, used => some (acc, used)
+  | _ + 1, [], acc, used => some (acc, used + 1)       -- the terminator was read with `len++`
   | _ + 1, [_], _, _ => Option.none
   | n + 1, c0 :: c1 :: r, acc, used =>
     match htmlPart c0 c1 with
@@ -321,7 +321,9 @@ def colorParse (tab : List NamedColor) (txt : Str) : Option (Color × Nat) :=
     | some (c, len) => some (c, if len > 0 then len + 1 else len)
   | _ => colorByName tab txt
 
-def hex2 (n : Nat) : Str := [(hexDigit (n / 16 % 16)).toNat.toUInt8, (hexDigit (n % 16)).toNat.toUInt8]
+/-- lower-case hexadecimal digit as a character code -/
+def hexByte (n : Nat) : Byte := if n < 10 then (48 + n).toUInt8 else (87 + n).toUInt8
+def hex2 (n : Nat) : Str := [hexByte (n / 16 % 16), hexByte (n % 16)]
 
 /-- text form of a colour as mpt++/color.cpp prints it: `#rrggbb`, `#rrggbbaa` when not opaque -/
 def colorPrint (c : Color) : Str :=
@@ -381,17 +383,19 @@ inductive Act where
   | conv (ty : Char) (field : Nat)
   /-- `if (!src) { mpt_string_set(&o->f, 0, 0); return 0; } return mpt_string_pset(&o->f, src);` -/
   | string (field : Nat)
-  /-- `[if (!src) { o->f = def.f; return 0; }] return mpt_color_pset(&o->f, src);` -/
-  | colour (field : Nat) (reset : Bool)
-  /-- `[if (!src) { o->attr.m = def.attr.m; return 0; }] return mpt_lattr_<m>(&o->attr, src);`
-      with `{default, min, max}` of lattr_set.c -/
-  | lattr (field : Nat) (dflt lo hi : Nat) (reset : Bool)
+  /-- `[if (!src) { o->g = def.g; return 0; }] return mpt_color_pset(&o->f, src);`
+      (`reset` = the member `g` the guard restores, none: no guard) -/
+  | colour (field : Nat) (reset : Option Nat)
+  /-- `[if (!src) { o->attr.g = def.attr.g; return 0; }] return mpt_lattr_<m>(&o->attr, src);`
+      with `{default, min, max}` of lattr_set.c (`reset` = the member `g` the guard restores) -/
+  | lattr (field : Nat) (dflt lo hi : Nat) (reset : Option Nat)
   /-- axis `setPosition(&o->f, src, def.f)` -/
   | axisPos (field : Nat)
   /-- line `setPosition(&o->f, src)` -/
   | linePos (field : Nat)
-  /-- `static const range r = {lo, hi}; if (!src || !(len = mpt_fpoint_set(&o->f, src, &r))) {default}` -/
-  | fpoint (field : Nat) (lo hi : Fl)
+  /-- `static const range r = {lo, hi}; if (!src || !(len = mpt_fpoint_set(&o->f, src, &r))) {default}
+      return len < 0 ? len : 0;` (`retLen`: `return len;`) -/
+  | fpoint (field : Nat) (lo hi : Fl) (retLen : Bool)
   /-- axis `intervals`: count or the keyword `log` (flag `bit` of member `flags`) -/
   | intervals (field flags : Nat) (bit : Nat)
   /-- graph `align`: number or up to four letters b/e/z -/
@@ -563,8 +567,9 @@ def logWord : Str := [108, 111, 103]
 
 /-- members a handler may write -/
 def Act.touched : Act → List Nat
-  | .conv _ f => [f] | .string f => [f] | .colour f _ => [f] | .lattr f _ _ _ _ => [f]
-  | .axisPos f => [f] | .linePos f => [f] | .fpoint f _ _ => [f, f + 1]
+  | .conv _ f => [f] | .string f => [f]
+  | .colour f r => f :: r.toList | .lattr f _ _ _ r => f :: r.toList
+  | .axisPos f => [f] | .linePos f => [f] | .fpoint f _ _ _ => [f, f + 1]
   | .intervals f g _ => [f, g] | .align f => [f] | .clip f => [f]
 
 /-- run one handler -/
@@ -585,8 +590,10 @@ def Act.run (k : Kind) (tab : List NamedColor) (a : Act) (o : Obj) (src : Src) (
     | .text v => ⟨setString o f v tok, .ok 0⟩
   | .colour f reset =>
     match src with
-    | .null => if reset then ⟨o.put f (k.dflt f), .ok 0⟩
-               else ⟨o, .ok (if o.get f = .col ⟨0, 0, 0, 255⟩ then 0 else 1)⟩
+    | .null =>
+      match reset with
+      | some g => ⟨o.put g (k.dflt g), .ok 0⟩
+      | Option.none => ⟨o, .ok (if o.get f = .col ⟨0, 0, 0, 255⟩ then 0 else 1)⟩
     | .text v =>
       match colourText tab v with
       | .none => ⟨o, .ok 0⟩
@@ -595,7 +602,10 @@ def Act.run (k : Kind) (tab : List NamedColor) (a : Act) (o : Obj) (src : Src) (
       | .unsup => ⟨o, .unsup⟩
   | .lattr f d lo hi reset =>
     match src with
-    | .null => ⟨o.put f (if reset then k.dflt f else .int d), .ok 0⟩
+    | .null =>
+      match reset with
+      | some g => ⟨o.put g (k.dflt g), .ok 0⟩
+      | Option.none => ⟨o.put f (.int d), .ok 0⟩
     | .text v =>
       match lattrText d lo hi v with
       | .val x _ => ⟨o.put f (.int x), .ok 0⟩
@@ -618,16 +628,19 @@ def Act.run (k : Kind) (tab : List NamedColor) (a : Act) (o : Obj) (src : Src) (
       match convText 'f' v with
       | .none => ⟨o.put f (.flt ⟨0, 0⟩), .ok 0⟩
       | .val x _ => ⟨o.put f x, .ok 0⟩
-      | .err .BadValue => ⟨o, .unsup⟩                     -- beyond float: stored through the double path
+      | .err .BadValue =>                                  -- beyond float: the double path is tried
+        match convText 'd' v with
+        | .err _ => ⟨o, .err .BadType⟩
+        | _ => ⟨o, .unsup⟩                                 -- a double beyond float is stored as infinity
       | .err _ => ⟨o, .err .BadType⟩
       | .unsup => ⟨o, .unsup⟩
-  | .fpoint f lo hi =>
+  | .fpoint f lo hi retLen =>
     match src with
     | .null => ⟨(o.put f (k.dflt f)).put (f + 1) (k.dflt (f + 1)), .ok 0⟩
     | .text v =>
       match fpointText lo hi v with
       | .none => ⟨(o.put f (k.dflt f)).put (f + 1) (k.dflt (f + 1)), .ok 0⟩
-      | .val (x, y) n => ⟨(o.put f (.flt x)).put (f + 1) (.flt y), .ok n⟩
+      | .val (x, y) n => ⟨(o.put f (.flt x)).put (f + 1) (.flt y), .ok (if retLen then n else 0)⟩
       | .err e => ⟨o, .err e⟩
       | .unsup => ⟨o, .unsup⟩
   | .intervals f g bit =>
